@@ -60,6 +60,7 @@ type Program struct {
 	dynCalls      []ssa.CallInstruction                   // calls of function values not resolved in the first phase
 	noParamCallee bool
 	boundSites    map[*ssa.Function][]*ssa.MakeClosure
+	visitorWalks  map[*ssa.Function][]*ssa.Call // Visit method -> the ast.Walk calls that are given a value of its receiver type
 	opaqueCalls   bool
 	pinDepth      int
 	inlineBusy    map[*ssa.Function]bool
@@ -404,6 +405,10 @@ func (P *Program) Callers(fn *ssa.Function) []ssa.CallInstruction {
 	}
 	if call, ok := P.pin[fn]; ok {
 		return []ssa.CallInstruction{call}
+	}
+	if w := P.visitorWalk(fn); w != nil {
+		// the Visit method is entered (by the library) where its visitor is handed to ast.Walk
+		return []ssa.CallInstruction{w}
 	}
 	if P.noParamCallee {
 		return P.callers[fn]
